@@ -92,6 +92,8 @@ fn apply(pdb: &mut PDB, op: &[&str], par: Option<&rayon::ThreadPool>) -> String 
         "r.set_serial_number" => { let r = residue!(); r.set_serial_number(t.i64().unwrap() as isize); unit }
         "r.set_insertion_code" => { let r = residue!(); let raw = t.str().unwrap(); b(r.set_insertion_code(raw)) }
         "r.remove_insertion_code" => { let r = residue!(); r.remove_insertion_code(); unit }
+        "m.add_atom" => { let m = model!(); let ch = t.str().unwrap(); let n = t.i64().unwrap() as isize; let ic = t.opt().unwrap(); let nm = t.str().unwrap(); let alt = t.opt().unwrap(); let a = SAtom::parse(&mut t).unwrap().to_real().unwrap(); m.add_atom(a, ch, (n, ic.as_deref()), (nm, alt.as_deref())); unit }
+        "c.add_atom" => { let c = chain!(); let n = t.i64().unwrap() as isize; let ic = t.opt().unwrap(); let nm = t.str().unwrap(); let alt = t.opt().unwrap(); let a = SAtom::parse(&mut t).unwrap().to_real().unwrap(); c.add_atom(a, (n, ic.as_deref()), (nm, alt.as_deref())); unit }
         "f.add_atom" => { let f = conformer!(); f.add_atom(SAtom::parse(&mut t).unwrap().to_real().unwrap()); unit }
         "f.remove_atom" => { let f = conformer!(); let i = t.usize().unwrap(); f.remove_atom(i); unit }
         "f.remove_atom_by_serial_number" => { let f = conformer!(); let n = t.usize().unwrap(); b(match par { Some(p) => p.install(|| f.par_remove_atom_by_serial_number(n)), None => f.remove_atom_by_serial_number(n) }) }
@@ -179,7 +181,10 @@ fn rand_op(r: &mut Rng, s: &SPdb) -> String {
     let p5 = rand_path(r, s, 5);
     let rn = r.range(-3, 22);
     let real_atom = |a: &SAtom| SAtom::from_real(&a.to_real().unwrap());
-    match r.below(70) {
+    match r.below(74) {
+        // `add_atom` on a model / chain that edits have shaped (duplicate chain ids after joins, residues in any order)
+        70 | 71 => format!("m.add_atom {} {} {} {} {} {} {}", ps(&p1), enc_str(pk(r, CHAIN_IDS)), rn, enc_opt(*r.pick(&[None, None, Some("A")])), enc_str(*r.pick(&["ALA", "GLY", "HOH"])), enc_opt(*r.pick(&[None, None, Some("A"), Some("B")])), tok(&real_atom(&gen_atom(r, &tiny, &mut cnt)), SAtom::toks)),
+        72 | 73 => format!("c.add_atom {} {} {} {} {} {}", ps(&p2), rn, enc_opt(*r.pick(&[None, None, Some("A")])), enc_str(*r.pick(&["ALA", "GLY", "HOH"])), enc_opt(*r.pick(&[None, None, Some("A"), Some("B")])), tok(&real_atom(&gen_atom(r, &tiny, &mut cnt)), SAtom::toks)),
         0 => format!("p.add_model {}", tok(&small(r, &GenOpts { max_models: 1, allow_empty: false, ..tiny }).models[0], SModel::toks)),
         1 => format!("p.remove_model {}", r.below(s.models.len() + 2)),
         2 => format!("p.remove_models_by {}", rand_pred(r, 'm')),
@@ -306,6 +311,20 @@ pub fn gen(tier: &str, r: &mut Rng) -> Vec<String> {
         let len = if i % 25 == 0 { 50 + r.below(150) } else { 1 + r.below(12) };
         let ops: Vec<String> = (0..len).map(|_| rand_op(r, &s)).collect();
         out.push(format!("c10 hist {} {}", s.line(), ops.join(" ; ")));
+    }
+    // a model that holds the same chain id twice (as a join leaves it), the later one last: `add_atom` goes to the first
+    for _ in 0..budget(tier, 40, 400) {
+        let o = GenOpts { max_models: 1, max_chains: 3, max_res: 2, max_conf: 2, max_atoms: 2, aniso: false, allow_empty: false, ..GenOpts::default() };
+        let s = small(r, &o);
+        if let Some(id) = s.models.first().and_then(|m| m.chains.first()).map(|c| c.id.clone()) {
+            let tiny = GenOpts { max_models: 1, max_chains: 1, max_res: 2, max_conf: 1, max_atoms: 2, aniso: false, ..GenOpts::default() };
+            let mut cnt = Counter { serial: 500, id: 5000 + r.below(1000) };
+            let dup = tok(&SChain::from_real(&gen_chain(r, &tiny, &mut cnt, &id).to_real().unwrap()), SChain::toks);
+            let atom = |r: &mut Rng, cnt: &mut Counter| tok(&SAtom::from_real(&gen_atom(r, &tiny, cnt).to_real().unwrap()), SAtom::toks);
+            let a1 = atom(r, &mut cnt); let a2 = atom(r, &mut cnt);
+            let ops = vec![format!("m.add_chain 0 {}", dup), format!("m.add_atom 0 {} {} ~ {} ~ {}", enc_str(&id), r.range(-3, 22), enc_str("ALA"), a1), format!("m.add_atom 0 {} {} ~ {} ~ {}", enc_str(&id), 900, enc_str("GLY"), a2)];
+            out.push(format!("c10 hist {} {}", s.line(), ops.join(" ; ")));
+        }
     }
     // by-identifier removals of the parallel twins on containers large enough for the pool to split them, with the
     // identifier present twice: only the FIRST match may go, whatever worker finds a match first
